@@ -139,7 +139,15 @@ impl<'a> TransportFeedback<'a> {
         if parser::parse_count(self.data) != F::FCI_FORMAT {
             return Err(RtcpParseError::WrongImplementation);
         }
-        F::parse(&self.data[12..])
+        // the RFC 3550 trailing padding is not part of the FCI
+        let padding = self.padding().unwrap_or(0) as usize;
+        if self.data.len() < Self::MIN_PACKET_LEN + padding {
+            return Err(RtcpParseError::Truncated {
+                expected: Self::MIN_PACKET_LEN + padding,
+                actual: self.data.len(),
+            });
+        }
+        F::parse(&self.data[12..self.data.len() - padding])
     }
 }
 
@@ -335,7 +343,15 @@ impl<'a> PayloadFeedback<'a> {
         if parser::parse_count(self.data) != F::FCI_FORMAT {
             return Err(RtcpParseError::WrongImplementation);
         }
-        F::parse(&self.data[12..])
+        // the RFC 3550 trailing padding is not part of the FCI
+        let padding = self.padding().unwrap_or(0) as usize;
+        if self.data.len() < Self::MIN_PACKET_LEN + padding {
+            return Err(RtcpParseError::Truncated {
+                expected: Self::MIN_PACKET_LEN + padding,
+                actual: self.data.len(),
+            });
+        }
+        F::parse(&self.data[12..self.data.len() - padding])
     }
 }
 
